@@ -33,7 +33,7 @@ def recur_obs(rec):
             vs = [vs]
         items = []
         for v in vs:
-            if isinstance(v, (datetime, date, timedelta)):
+            if isinstance(v, (datetime, date, timedelta, time)):
                 items.append(tobs(v))
             elif hasattr(v, "dt"):
                 items.append(tobs(v.dt))
